@@ -230,4 +230,16 @@ def medianOriginal (ps : List Int) : Option Int :=
       if tmod2 hi = 1 ∧ tmod2 lo = 1 then some (sum + 1) else some sum
     | _, _ => none
 
+/-! ## vote-extension price bytes: acceptance vs. use -/
+
+/-- `verify_vote_extension` (VerifyVoteExtension, and through `validate_vote_extensions` every
+    proposal check): a price is accepted if it is at most 33 bytes long — the bound of
+    skip-mev/connect, where prices are gob-encoded big integers. -/
+def MAX_PRICE_BYTES : Nat := 33
+def verifyAcceptsPriceLen (n : Nat) : Bool := n ≤ MAX_PRICE_BYTES
+
+/-- `Price::try_from(Bytes)` (used by `OracleVoteExtension::try_from_raw` inside
+    `calculate_prices_from_vote_extensions`, i.e. by FinalizeBlock): exactly 16 big-endian bytes. -/
+def priceDecodes (n : Nat) : Bool := n = 16
+
 end Astria.Quorum
